@@ -218,6 +218,28 @@ func (c *Ctx) runBFS(name string, sys xstate.System, depth int, kase interface{}
 	for _, v := range res.Violations {
 		c.Violation(name, v.Sig, v.Msg+" after "+fmt.Sprint(v.Names), v.History, kase, v.Names)
 	}
+	// guard against an over-coarse state key (and against hidden state the key cannot see, such
+	// as pooled buffers): every history up to a smaller depth is also explored WITHOUT deduplication
+	nd := depth
+	for pow := int64(1); nd > 1; nd-- {
+		pow = 1
+		for i := 0; i < nd; i++ {
+			pow *= int64(sys.NumEvents())
+		}
+		if pow <= 20000 {
+			break
+		}
+	}
+	res2 := xstate.Explore(sys, xstate.Options{MaxDepth: nd, NoDedup: true, ShardI: c.Shard, ShardN: c.NShards, Deadline: c.TimeUp})
+	st.Execs += res2.Replays
+	st.Transitions += res2.Transitions
+	st.Bounds += fmt.Sprintf("; all %d-event histories without state merging", nd)
+	for _, v := range res2.Violations {
+		c.Violation(name, v.Sig, v.Msg+" after "+fmt.Sprint(v.Names), v.History, kase, v.Names)
+	}
+	if !res2.Complete {
+		st.Exhaustive = false
+	}
 	if len(res.Violations) == 0 && c.Shard == 0 {
 		c.Sample(map[string]interface{}{"scenario": name, "states": res.States, "transitions": res.Transitions, "states_per_depth": res.PerDepth})
 	}
